@@ -26,6 +26,14 @@ package main
 // ALREADY HAS: connector MessagesCreated naming known messages / duplicates in one batch (cknown), MessageUpdated of an
 // existing message (cupdated), COPY / MOVE onto a mailbox that holds the message (dupcopy), RENAME INBOX with and
 // without inferiors, RENAME / DELETE of mailboxes with messages and children (rename 2, rename2, delete, delete2).
+//
+// Restart states with a PARTLY LOST CACHE (modes `<mode>+lost1`, `<mode>+lostall`): gluon supports message rows without
+// a cache file (the literal is downloaded again from the connector). For every scenario that writes the store (and for
+// the start-up scenario with its planted stale file) the fault runs at and after the first store.Set are repeated with
+// the cache files of one / of all COMMITTED messages of the prefix removed between the interrupted run and the
+// restart, and a connector that serves literals: the restart state then holds rows without a file AND (from the
+// interrupted operation) a file without a row. Same verdict: before- or after-state, every listed message fetched
+// with its exact bytes (from the cache or downloaded again), no cache file without a row after start-up.
 
 import (
 	"encoding/json"
@@ -61,12 +69,70 @@ type c07CheckOut struct {
 	View   *c07View  `json:"view"`
 	Panics []string  `json:"panics,omitempty"`
 	Err    string    `json:"err,omitempty"`
+	// Lost: cache files of committed messages removed before this restart (modes +lost1 / +lostall)
+	Lost []string `json:"lost,omitempty"`
 }
 
 func writeJSON(path string, v any) {
 	b, _ := json.Marshal(v)
 	_ = os.WriteFile(path+".tmp", b, 0o644)
 	_ = os.Rename(path+".tmp", path)
+}
+
+// c07BaseMode splits a run mode into the fault mode and the cache-loss variant ("" | "1" | "all").
+func c07BaseMode(mode string) (string, string) {
+	if i := strings.Index(mode, "+lost"); i >= 0 {
+		return mode[:i], mode[i+len("+lost"):]
+	}
+	return mode, ""
+}
+
+// c07CommittedFiles: the cache files (full paths) of the rows that are not marked deleted, right now.
+func (e *c07Env) c07CommittedFiles() []string {
+	a, err := e.audit()
+	if err != nil {
+		return nil
+	}
+	skip := map[string]bool{}
+	for _, id := range a.MarkedDeleted {
+		skip[id] = true
+	}
+	files := map[string]bool{}
+	for _, f := range a.StoreFiles {
+		files[f] = true
+	}
+	var out []string
+	for _, r := range a.Rows {
+		if files[r] && !skip[r] {
+			out = append(out, filepath.Join(e.ip.StorePath, r))
+		}
+	}
+	sort.Strings(out)
+	return out
+}
+
+// c07LoseCache removes, before the restart, the cache files of one (seed-chosen) or of all messages that were
+// committed when the prefix ended (a cache that was partly lost / reset between two runs of the server).
+func c07LoseCache(dir, lose string, seed uint64) (lost []string) {
+	b, err := os.ReadFile(filepath.Join(dir, "prefix_files"))
+	if err != nil {
+		return nil
+	}
+	files := strings.Fields(string(b))
+	if len(files) == 0 {
+		return nil
+	}
+	if lose == "1" {
+		rng := NewRng(seed ^ 0xc07105e)
+		k := rng.Intn(len(files))
+		files = files[k : k+1]
+	}
+	for _, f := range files {
+		if os.Remove(f) == nil {
+			lost = append(lost, filepath.Base(f))
+		}
+	}
+	return lost
 }
 
 func runC07Child(args []string) int {
@@ -86,12 +152,16 @@ func runC07Child(args []string) int {
 			out.Err = "no userid: " + err.Error()
 			return 0
 		}
+		lose := os.Getenv("VH_C07_LOSE")
+		if lose != "" {
+			out.Lost = c07LoseCache(*dir, lose, *seed)
+		}
 		env, err := newC07Sys(*dir, strings.TrimSpace(string(uid)), 900000, Fault{})
 		if err != nil {
 			out.Err = "restart failed: " + err.Error()
 			return 0
 		}
-		env.conn.serve = *op == "redownload"
+		env.conn.serve = *op == "redownload" || lose != ""
 		if out.Audit, err = env.audit(); err != nil {
 			out.Err = "audit: " + err.Error()
 		}
@@ -127,6 +197,7 @@ func runC07Child(args []string) int {
 			flush()
 			return 0
 		}
+		_ = os.WriteFile(filepath.Join(*dir, "prefix_files"), []byte(strings.Join(env.c07CommittedFiles(), "\n")), 0o644)
 		if *op == "startup" {
 			// a row marked deleted that no session releases, a cache file without a row, clean shutdown:
 			// the marked operation is the START-UP of the user (recovery), with the fault live from its first step
@@ -140,6 +211,7 @@ func runC07Child(args []string) int {
 				flush()
 				return 0
 			}
+			_ = os.WriteFile(filepath.Join(*dir, "prefix_files"), []byte(strings.Join(env.c07CommittedFiles(), "\n")), 0o644)
 			_ = os.WriteFile(filepath.Join(env.ip.StorePath, "11111111-2222-4333-8444-555555555555"), []byte("GLUON-CACHE\x01\x00\x00\x00stale"), 0o600)
 			if *phase == "before" {
 				if out.View, err = env.observe(); err != nil {
@@ -153,7 +225,15 @@ func runC07Child(args []string) int {
 			env.c.Close()
 			env.sys.Close(false)
 			fault.EarlyArm = true
+			// modes +lost1 / +lostall: the cache is partly lost BEFORE the interrupted start-up already
+			lose := os.Getenv("VH_C07_LOSE")
+			if lose != "" {
+				c07LoseCache(*dir, lose, *seed)
+			}
 			env2, err := newC07Sys(*dir, uid, 500000, fault)
+			if err == nil && lose != "" {
+				env2.conn.serve = true
+			}
 			if err != nil {
 				// an injected error may make the start-up fail: the next start must cope (check phase)
 				out.Outcome = "start-failed"
@@ -284,9 +364,13 @@ func c07Exec(self string, seed uint64, r c07Run, keep bool) *c07Result {
 			return false, "timeout (120s): the child hung"
 		}
 	}
-	env := []string{"VH_FAULT_MODE=" + r.Mode, fmt.Sprintf("VH_FAULT_STEP=%d", r.Step), "VH_FAULT_LOG=" + filepath.Join(dir, "fault.log")}
+	baseMode, lose := c07BaseMode(r.Mode)
+	env := []string{"VH_FAULT_MODE=" + baseMode, fmt.Sprintf("VH_FAULT_STEP=%d", r.Step), "VH_FAULT_LOG=" + filepath.Join(dir, "fault.log")}
 	if r.Mode == "before" || r.Mode == "none" {
 		env = []string{"VH_FAULT_MODE=none"}
+	}
+	if lose != "" {
+		env = append(env, "VH_C07_LOSE="+lose)
 	}
 	res.Killed, res.ExitErr = child(phase, env)
 	out := &c07RunOut{}
@@ -294,7 +378,7 @@ func c07Exec(self string, seed uint64, r c07Run, keep bool) *c07Result {
 		res.Out = out
 	}
 	if r.Mode != "before" && res.ExitErr == "" {
-		_, cerr := child("check", []string{"VH_FAULT_MODE=none"})
+		_, cerr := child("check", []string{"VH_FAULT_MODE=none", "VH_C07_LOSE=" + lose})
 		ck := &c07CheckOut{}
 		if readJSON(filepath.Join(dir, "check.json"), ck) {
 			res.Check = ck
@@ -346,7 +430,7 @@ func (ref *c07Ref) classify(r c07Run, v *c07View) string {
 	case c == ref.after.canon():
 		return "after"
 	}
-	if r.Op == "append" && (r.Mode == "err" || r.Mode == "errhalf") {
+	if bm, _ := c07BaseMode(r.Mode); r.Op == "append" && (bm == "err" || bm == "errhalf") {
 		if c07Recovered(v, ref.before, ref.appendHash) {
 			return "before+recovered"
 		}
@@ -406,6 +490,13 @@ func (ref *c07Ref) judge(res *c07Result) (viol []string, class string) {
 		stepName = ref.steps[r.Step]
 	}
 	where := fmt.Sprintf("%s at step %d/%d (%s) of %q", r.Mode, r.Step, len(ref.steps), stepName, c07OpText(r.Op, r.Inst))
+	if _, lose := c07BaseMode(r.Mode); lose != "" {
+		n := 0
+		if res.Check != nil {
+			n = len(res.Check.Lost)
+		}
+		where += fmt.Sprintf(" [cache partly lost before the restart: %d cache file(s) of committed messages removed (%s), the connector serves the literals again]", n, lose)
+	}
 	if res.ExitErr != "" {
 		return []string{fmt.Sprintf("%s: child failed: %s", where, res.ExitErr)}, "child-error"
 	}
@@ -483,6 +574,35 @@ func c07FaultRuns(op string, inst int, steps []string, tier string) []c07Run {
 		runs = append(runs, c07Run{op, inst, "err", i})
 		if strings.HasPrefix(steps[i], "store.Set:") {
 			runs = append(runs, c07Run{op, inst, "killnonce", i}, c07Run{op, inst, "killhalf", i}, c07Run{op, inst, "errhalf", i})
+		}
+	}
+	// restart states with a partly lost cache: rows without a file together with what the interrupted operation left.
+	// Only where a file without a row can exist: from the first store.Set of the operation on (and the whole start-up
+	// scenario, whose prefix plants a stale file).
+	first := -1
+	for i, s := range steps {
+		if strings.HasPrefix(s, "store.Set:") {
+			first = i
+			break
+		}
+	}
+	if op == "startup" {
+		first = 0
+	}
+	// not for MessageUpdated: the REMOTE literal of an existing message has changed by then (remote side effects of an
+	// interrupted operation are not rolled back, see the assumptions), so a download of the lost file of that message
+	// rightly shows the new bytes under the old row - neither the before- nor the after-state, and no defect
+	if op == "cupdated" {
+		first = -1
+	}
+	if first >= 0 {
+		for _, r := range append([]c07Run{}, runs...) {
+			if r.Step < first {
+				continue
+			}
+			for _, lose := range []string{"+lost1", "+lostall"} {
+				runs = append(runs, c07Run{op, inst, r.Mode + lose, r.Step})
+			}
 		}
 	}
 	return runs
